@@ -14,6 +14,8 @@ M = [
  ("seeded C05-s5a", "PATCH", "/verif/seeded/C05-s5a/patch.diff", None),
  ("seeded C10-r2a", "PATCH", "/verif/seeded/C10-r2a/patch.diff", None),
  ("seeded C10-r2b", "PATCH", "/verif/seeded/C10-r2b/patch.diff", None),
+ ("seeded C10-t1a", "PATCH", "/verif/seeded/C10-t1a/patch.diff", None),
+ ("seeded C10-u3a", "PATCH", "/verif/seeded/C10-u3a/patch.diff", None),
  # ---- own
  ("own: _add_1_1 does not skip src", "images.py", '                if variant_arch == "src":\n                    continue\n', ''),
  ("own: _add_1_1 re-files under the first binary arch only", "images.py",
